@@ -69,6 +69,7 @@ def run(ctx, env, rng, found):
                       what="the getCParams/adjustCParams correspondence could not be run: " + (err + err2)[-300:], no_input=True)
         return
     nbad = 0
+    concrete = []
     for ln, r, m in zip(real_lines, real, model):
         t = ln.split()
         ctx.count(("adjust", t[0], r.split()[-2] if t[0].startswith("adj") else t[1]))
@@ -76,6 +77,7 @@ def run(ctx, env, rng, found):
         if r.split()[-1] != "1":
             nbad += 1
             if nbad <= 2:
+                concrete.append(ln)
                 ctx.violation(dict(kind="c16-adjust", line=ln, real=r, model=m),
                               what="`%s` returns compression parameters outside the advertised bounds: %s" % (ln, r))
         elif r != m:
@@ -85,6 +87,7 @@ def run(ctx, env, rng, found):
                               what="model/code disagreement on `%s`: code `%s`, model `%s` (result still within bounds)" % (ln, r, m), no_input=True)
     ctx.notes["adjust_cases"] = len(real_lines)
     ctx.sample(dict(adjust_line=real_lines[0], result=real[0]))
+    return concrete
 
 
 def replay(ctx, env, rp):
